@@ -2,6 +2,7 @@ package spec
 
 import (
 	"go/ast"
+	"go/types"
 	"sort"
 	"strings"
 
@@ -75,7 +76,7 @@ func runC20(r *an.Run) {
 			} {
 				g := p.Func(c.fn)
 				gv := g.Calls(an.CalleeNamed("Verify"), false)
-				if !need(o, g, "Verify", gv, 1) {
+				if !needExactly(o, g, "Verify", gv, 1) {
 					continue
 				}
 				a := g.ArgCanon(gv[0])
@@ -99,7 +100,7 @@ func runC20(r *an.Run) {
 			} {
 				g := p.Func(c.fn)
 				a, b := g.Calls(an.CalleeIs(c.first), false), g.Calls(an.CalleeIs(c.second), false)
-				if need(o, g, c.first, a, 1) && need(o, g, c.second, b, 1) {
+				if needExactly(o, g, c.first, a, 1) && needExactly(o, g, c.second, b, 1) {
 					for _, s := range g.Returns() {
 						if s.V == b[0].V {
 							mustPass(o, g, c.first, a, an.OkErrNil, []an.Site{s})
@@ -131,14 +132,14 @@ func runC20(r *an.Run) {
 		})
 
 	r.Obl("channel-announcement-admission", "PATH",
-		"handleChanAnnouncement reaches Graph.AddEdge only if the message is local or netann.ValidateChannelAnn(ann) was executed and succeeded, and only if AssumeChannelValid or IsAlias(scid) or validateFundingTransaction succeeded; the edge added carries the announced keys and ids and, when validated, the capacity / outpoint / script that validation returned; validateFundingTransaction succeeds only after the funding transaction was fetched, chanvalidate.Validate matched the script built from the two announced bitcoin keys, and GetUtxo found that output unspent; the announcement is relayed only after AddEdge succeeded",
+		"handleChanAnnouncement reaches Graph.AddEdge only if the message is local or netann.ValidateChannelAnn(ann) was executed and succeeded, and only if AssumeChannelValid or IsAlias(scid) or validateFundingTransaction succeeded; the edge added is the one built from the announced keys and ids, of which only Capacity, ChannelPoint and FundingScript are set afterwards and, when validated, from the capacity / outpoint / script that validation returned (bound once, in result order, and not overwritten by a later write); validateFundingTransaction succeeds only after the funding transaction was fetched, chanvalidate.Validate matched the script makeFundingScript built from the two announced bitcoin keys in order (2-of-2 hash or taproot), and GetUtxo found that output unspent, each of its locals being the single result of that step; ValidateChannelAnn returns, for a version-1 announcement, the verdict of an unconditional validateChannelAnn1; what is handed on for relay is nil, the announcement list (extended only by this announcement) after AddEdge succeeded, or what processRejectedEdge extracted when the graph ignored a known edge",
 		"an announcement that skips either check puts a channel nobody proved to exist (or to be theirs) into the graph pathfinding trusts", 12,
 		func(o *an.Obl) {
 			f := p.Func(gs + "handleChanAnnouncement")
 			add := f.Calls(an.CalleeNamed("AddEdge"), false)
 			val := f.Calls(an.CalleeIs("netann.ValidateChannelAnn"), false)
 			fund := f.Calls(an.CalleeIs(gs+"validateFundingTransaction"), false)
-			if !need(o, f, "Graph.AddEdge", add, 1) {
+			if !needExactly(o, f, "Graph.AddEdge", add, 1) {
 				return
 			}
 			remote := an.FieldPath(an.Param(1), "isRemote")
@@ -161,7 +162,7 @@ func runC20(r *an.Run) {
 				o.FailAt(f.ID+"#edge", add[0].Where(), "the edge added is %s", a[1])
 			}
 			ne := f.Calls(an.CalleeNamed("NewV1Channel"), false)
-			if need(o, f, "NewV1Channel", ne, 1) {
+			if needExactly(o, f, "NewV1Channel", ne, 1) {
 				a := f.ArgCanon(ne[0])
 				o.Site("NewV1Channel(%s, %s, %s, %s, …)", a[0], a[1], a[2], a[3])
 				if a[0] != "$p2.ShortChannelID.ToUint64()" || a[2] != "$p2.NodeID1" || a[3] != "$p2.NodeID2" {
@@ -173,27 +174,74 @@ func runC20(r *an.Run) {
 					}
 				}
 			}
-			for _, fld := range []string{"Capacity", "ChannelPoint"} {
-				for _, s := range f.Assigns(an.FieldPath(an.LocalNamed("edge"), fld), false) {
-					c := an.Text(s.Node.(*ast.AssignStmt).Rhs[0])
-					o.Site("edge.%s = %s", fld, c)
-					switch c {
-					case "capacity", "op":
-						mustPass(o, f, "validateFundingTransaction", fund, an.OkErrNil, []an.Site{s})
-					case "*nMsg.optionalMsgFields.capacity", "cp":
-					default:
-						o.FailAt(f.ID+"#edge-"+fld, s.Where(), "edge.%s is set from %s", fld, c)
+			// the locals the rules below are written in: the announcement and
+			// its id, the edge built from it, and what funding validation returned
+			notReassigned(o, f, "nMsg", "ann")
+			c20SingleDef(o, f, "scid", "$p2.ShortChannelID")
+			var edgeObj types.Object
+			if len(ne) == 1 {
+				edgeObj = c20ResultOf(o, f, "edge", ne[0], 0)
+				if c19VarObj(f, callArg(add[0], 1)) != edgeObj {
+					o.FailAt(f.ID+"#edge-added", add[0].Where(), "AddEdge is given %s, expected the edge built from the announcement", an.Text(callArg(add[0], 1)))
+				}
+			}
+			validated := map[string]types.Object{}
+			if len(fund) == 1 {
+				for i, n := range []string{"op", "capacity", "script"} {
+					validated[n] = c20ResultOf(o, f, n, fund[0], i)
+				}
+			}
+			fromValidation := func(fld string, rhs ast.Expr) bool {
+				switch fld {
+				case "Capacity":
+					return validated["capacity"] != nil && c19VarObj(f, rhs) == validated["capacity"]
+				case "ChannelPoint":
+					return validated["op"] != nil && c19VarObj(f, rhs) == validated["op"]
+				case "FundingScript":
+					c, ok := ast.Unparen(rhs).(*ast.CallExpr)
+					return ok && an.Text(c.Fun) == "fn.Some" && len(c.Args) == 1 && validated["script"] != nil && c19VarObj(f, c.Args[0]) == validated["script"]
+				}
+				return false
+			}
+			// after construction only these three fields are set, each from the
+			// validation result or (before validation) from the local caller's
+			// optional fields; keys, ids and proof stay as announced
+			if edgeObj != nil {
+				for fld, ws := range c20OnlyFieldWrites(o, f, edgeObj, "edge", "Capacity", "ChannelPoint", "FundingScript") {
+					for _, w := range ws {
+						as, ok := w.(*ast.AssignStmt)
+						if !ok || len(as.Lhs) != 1 || len(as.Rhs) != 1 || as.Tok.String() != "=" {
+							o.FailAt(f.ID+"#edge-"+fld, f.Where(w.Pos()), "edge.%s is changed by %s", fld, an.Text(w))
+							continue
+						}
+						s := c19SiteFor(f, as)
+						c := an.Text(as.Rhs[0])
+						o.Site("edge.%s = %s", fld, c)
+						switch {
+						case fromValidation(fld, as.Rhs[0]):
+							mustPass(o, f, "validateFundingTransaction", fund, an.OkErrNil, []an.Site{s})
+						case fld == "Capacity" && c == "*nMsg.optionalMsgFields.capacity", fld == "ChannelPoint" && c == "cp":
+						default:
+							o.FailAt(f.ID+"#edge-"+fld, s.Where(), "edge.%s is set from %s", fld, c)
+						}
 					}
 				}
 			}
-			// once the funding output was validated, the edge always carries what validation returned
-			if len(fund) == 1 && len(add) > 0 {
+			// once the funding output was validated, the edge always carries what
+			// validation returned: every path from the successful validation to
+			// AddEdge passes the validated write, and no other write follows it
+			if len(fund) == 1 && len(add) > 0 && edgeObj != nil {
 				oke, _ := f.OkEdges(fund[0], an.OkErrNil)
+				ws := c19FieldWrites(f, edgeObj)
 				for _, fld := range []string{"Capacity", "ChannelPoint", "FundingScript"} {
 					stop := map[*an.FlowVertex]bool{}
-					for _, s := range f.Assigns(an.FieldPath(an.LocalNamed("edge"), fld), false) {
-						if c := an.Text(s.Node.(*ast.AssignStmt).Rhs[0]); c == "capacity" || c == "op" || c == "fn.Some(script)" {
+					var others []an.Site
+					for _, w := range ws[fld] {
+						s := c19SiteFor(f, w)
+						if as, ok := w.(*ast.AssignStmt); ok && len(as.Rhs) == 1 && len(as.Lhs) == 1 && fromValidation(fld, as.Rhs[0]) {
 							stop[s.V] = true
+						} else {
+							others = append(others, s)
 						}
 					}
 					if len(stop) == 0 {
@@ -205,15 +253,31 @@ func runC20(r *an.Run) {
 							o.FailAt(f.ID+"#validated-"+fld+"-skipped", add[0].Where(), "after a successful funding validation the edge can be added without the validated %s", fld)
 						}
 					}
+					for v := range stop {
+						after := f.Graph().Reach(v, nil, nil)
+						for _, w := range others {
+							if after[w.V] && w.V != v {
+								o.FailAt(f.ID+"#validated-"+fld+"-overwritten", w.Where(), "%s replaces the validated %s before the edge is added", w.String(), fld)
+							}
+						}
+					}
 				}
 			}
-			// relay only after AddEdge
-			for _, s := range f.Returns() {
+			// relay only after AddEdge succeeded; the one exception is an edge the
+			// graph already knows (ErrIgnored), where what is handed on is what
+			// processRejectedEdge extracted
+			ignored := an.Truth(an.CallNamed("IsError", nil, nil, an.PkgVar("graph", "ErrIgnored")), true, "graph.IsError(err, graph.ErrIgnored)")
+			relays := c20RelayReturns(o, f, "$p2", "anns")
+			if len(relays) > 0 {
+				mustPassUnless(o, f, "Graph.AddEdge", add, an.OkErrNil, relays, ignored)
+			}
+			for _, s := range relays {
 				rs := s.Node.(*ast.ReturnStmt)
-				if an.IsNilIdent(f.Info(), rs.Results[0]) {
-					continue
+				viaIgnored, _ := f.Guarded(s, ignored)
+				c := f.Canon(rs.Results[0])
+				if viaIgnored != strings.HasPrefix(c, "$recv.processRejectedEdge($p0, $p2, ") {
+					o.FailAt(f.ID+"#relay-result", s.Where(), "%s hands on %s (ignored edge: %v); expected the result of processRejectedEdge for an ignored edge and the announcement list otherwise", s.String(), c, viaIgnored)
 				}
-				o.Site("relay exit %s", s.String())
 				stop := map[*an.FlowVertex]bool{add[0].V: true}
 				if f.Graph().Reach(f.Graph().Entry, nil, stop)[s.V] {
 					o.FailAt(f.ID+"#relay-without-add", s.Where(), "announcements are handed on for relay on a path that never calls AddEdge")
@@ -224,6 +288,54 @@ func runC20(r *an.Run) {
 			succ := g.StrictSuccessReturns()
 			for _, c := range []string{"FetchFundingTxWrapper", "makeFundingScript", "Validate", "GetUtxo"} {
 				mustPass(o, g, c, g.Calls(an.CalleeNamed(c), false), an.OkErrNil, succ)
+			}
+			// each local the checks below name has the one definition that gives it its role
+			notReassigned(o, g, "ann", "tapscriptRoot")
+			c20SingleDef(o, g, "scid", "$p1.ShortChannelID")
+			for _, row := range []struct{ name, callee string }{{"fundingTx", "FetchFundingTxWrapper"}, {"fundingPkScript", "makeFundingScript"}, {"fundingPoint", "Validate"}, {"chanUtxo", "GetUtxo"}} {
+				if cs := g.Calls(an.CalleeNamed(row.callee), false); needExactly(o, g, row.callee, cs, 1) {
+					c20ResultOf(o, g, row.name, cs[0], 0)
+				}
+			}
+			// the script builder, which the rule above trusts with the two keys
+			mk := p.Func("discovery.makeFundingScript")
+			notReassigned(o, mk, "bitcoinKey1", "bitcoinKey2", "features", "tapscriptRoot")
+			nScripts := 0
+			for _, fn := range append([]*an.Func{mk}, mk.Lits...) {
+				for _, s := range fn.Calls(an.CalleeNamed("GenMultiSigScript"), false) {
+					nScripts++
+					a := fn.ArgCanon(s)
+					o.Site("makeFundingScript: GenMultiSigScript%v", a)
+					if len(a) != 2 || a[0] != "$p0" || a[1] != "$p1" {
+						o.FailAt(mk.ID+"#multisig-keys", s.Where(), "the 2-of-2 script is built from %v, expected the two announced bitcoin keys in order", a)
+					}
+				}
+				for _, s := range fn.Calls(an.CalleeNamed("WitnessScriptHash"), false) {
+					if a := fn.ArgCanon(s); len(a) != 1 || a[0] != "input.GenMultiSigScript($p0, $p1)" {
+						o.FailAt(mk.ID+"#hashed-script", s.Where(), "the script hashed is %v, expected the 2-of-2 of the announced keys", a)
+					}
+				}
+				for _, s := range fn.Calls(an.CalleeNamed("GenTaprootFundingScript"), false) {
+					nScripts++
+					a := fn.ArgCanon(s)
+					o.Site("makeFundingScript: GenTaprootFundingScript%v", a[:2])
+					if a[0] != "github.com/btcsuite/btcd/btcec/v2.ParsePubKey($p0)" || a[1] != "github.com/btcsuite/btcd/btcec/v2.ParsePubKey($p1)" {
+						o.FailAt(mk.ID+"#taproot-keys", s.Where(), "the taproot funding script is built from (%s, %s), expected the two announced bitcoin keys in order", a[0], a[1])
+					}
+				}
+				for _, s := range fn.Returns() {
+					rs := s.Node.(*ast.ReturnStmt)
+					if len(rs.Results) != 2 || !an.IsNilIdent(fn.Info(), rs.Results[1]) {
+						continue
+					}
+					c := fn.Canon(rs.Results[0])
+					if c != "input.WitnessScriptHash(input.GenMultiSigScript($p0, $p1))" && !strings.HasPrefix(c, "input.GenTaprootFundingScript(") {
+						o.FailAt(mk.ID+"#result", s.Where(), "makeFundingScript returns %s, expected the hash of the 2-of-2 script or the taproot funding script", c)
+					}
+				}
+			}
+			if nScripts != 2 {
+				o.FailAt(mk.ID+"#scripts", mk.Where(mk.Body.Pos()), "expected makeFundingScript to build one 2-of-2 and one taproot script, found %d", nScripts)
 			}
 			for _, s := range g.Calls(an.CalleeNamed("makeFundingScript"), false) {
 				a := g.ArgCanon(s)
@@ -265,16 +377,34 @@ func runC20(r *an.Run) {
 					o.FailAt(v.ID+"#nil", s.Where(), "ValidateChannelAnn returns nil without validating")
 				}
 			}
+			// every return for a version-1 announcement is the v1 validator's verdict
+			isV1 := an.TypeCaseIs("lnwire.ChannelAnnouncement1", true, "a is a *ChannelAnnouncement1")
+			v1 := v.Calls(an.CalleeIs("netann.validateChannelAnn1"), false)
+			nV1 := 0
+			for _, s := range v.Returns() {
+				if ok, _ := v.Guarded(s, isV1); !ok {
+					continue
+				}
+				nV1++
+				if len(v1) == 1 && s.V != v1[0].V && an.IsNilIdent(v.Info(), s.Node.(*ast.ReturnStmt).Results[0]) {
+					mustPass(o, v, "validateChannelAnn1", v1, an.OkErrNil, []an.Site{s})
+				} else if len(v1) == 1 && s.V != v1[0].V {
+					o.FailAt(v.ID+"#v1-verdict", s.Where(), "for a version-1 announcement ValidateChannelAnn returns %s, expected `return validateChannelAnn1(ann)` (an unconditional call whose result is returned)", an.Text(s.Node))
+				}
+			}
+			if nV1 != 1 {
+				o.FailAt(v.ID+"#v1-returns", v.Where(v.Body.Pos()), "expected one return in the version-1 case of ValidateChannelAnn, found %d", nV1)
+			}
 		})
 
 	r.Obl("channel-update-admission", "GUARD",
-		"handleChanUpdate reaches Graph.UpdateEdge only below !IsStaleEdgePolicy(graphScid, timestamp, flags) and a successful ValidateChannelUpdateAnn(pubKey, chanInfo.Capacity, upd), where pubKey is chanInfo.NodeKey1() for direction 0 and NodeKey2() for direction 1; the update is relayed only after UpdateEdge succeeded; Builder.updateEdge writes the policy only for an existing channel and only when the timestamp stored for that same direction is before the new one; IsStaleEdgePolicy compares with the same direction's timestamp; both stores report the two directions' timestamps in (node1, node2) order; every function of discovery and graph that writes a policy through UpdateEdge first passes ValidateChannelUpdateAnn against the stored channel's capacity; makeZombiePubkeys keeps node 1's key only in slot 1 and node 2's key only in slot 2, and processZombieUpdate marks the edge live only after the signature verified under the key of the update's own direction",
+		"handleChanUpdate reaches Graph.UpdateEdge only below !IsStaleEdgePolicy(graphScid, timestamp, flags) with timestamp = time.Unix(upd.Timestamp, 0) and a successful ValidateChannelUpdateAnn(pubKey, chanInfo.Capacity, upd), where chanInfo is the channel stored under graphScid and pubKey receives a value only in the two direction cases (chanInfo.NodeKey1() for direction 0, NodeKey2() for direction 1); the policy applied is the one parsed from upd, neither being modified on the way to UpdateEdge; the update is relayed (as the announcement list, extended only by this update) only after UpdateEdge succeeded; Builder.updateEdge writes the policy only for an existing channel and only when the timestamp stored for that same direction is before the new one; IsStaleEdgePolicy compares with the same direction's timestamp and answers not-stale otherwise only on a lookup error, for an unknown channel or when no direction case applies; both bind the results of HasV1ChannelEdge in (edge1, edge2, exists, isZombie) order; both stores report, cache and re-read the two directions' timestamps in (node1, node2) order, each taken from that direction's policy; every function of discovery and graph that writes a policy through UpdateEdge first passes ValidateChannelUpdateAnn against the stored channel's capacity; makeZombiePubkeys keeps node 1's key only in slot 1 and node 2's key only in slot 2, every call site hands it (NodeKey1Bytes, NodeKey2Bytes) and writes its results to the zombie index in that order, and processZombieUpdate marks the edge live only after the update's signature verified under pubKey, which receives a value only in the two direction cases (node 1's key iff the direction bit is 0)",
 		"an update accepted from the wrong side, or not strictly newer, lets a peer (or a replay) overwrite the channel's forwarding policy", 18,
 		func(o *an.Obl) {
 			f := p.Func(gs + "handleChanUpdate")
 			upd := f.Calls(an.CalleeNamed("UpdateEdge"), false)
 			val := f.Calls(an.CalleeIs("netann.ValidateChannelUpdateAnn"), false)
-			if need(o, f, "Graph.UpdateEdge", upd, 1) {
+			if needExactly(o, f, "Graph.UpdateEdge", upd, 1) {
 				mustPass(o, f, "ValidateChannelUpdateAnn", val, an.OkErrNil, upd)
 				guarded(o, f, upd[0], an.Truth(an.CallNamed("IsStaleEdgePolicy", nil), false, "!IsStaleEdgePolicy(...)"))
 				guarded(o, f, upd[0], an.Cmp(an.FieldPath(an.Param(2), "Timestamp"), an.NE, an.IntConst(0), "upd.Timestamp != 0"))
@@ -287,12 +417,44 @@ func runC20(r *an.Run) {
 						o.FailAt(f.ID+"#policy-source", s.Where(), "the policy is built from %s", a[1])
 					}
 				}
-				for _, s := range f.Returns() {
-					rs := s.Node.(*ast.ReturnStmt)
-					if an.IsNilIdent(f.Info(), rs.Results[0]) {
-						continue
+				if relays := c20RelayReturns(o, f, "$p2"); len(relays) > 0 {
+					mustPass(o, f, "Graph.UpdateEdge", upd, an.OkErrNil, relays)
+				}
+				// the locals these rules name each have the one definition that gives them their role
+				notReassigned(o, f, "nMsg", "upd")
+				c20SingleDef(o, f, "timestamp", "time.Unix(int64($p2.Timestamp), 0)")
+				c20SingleDef(o, f, "direction", "($p2.ChannelFlags & lnwire.ChanUpdateDirection)")
+				if gc := f.Calls(an.CalleeNamed("GetChannelByID"), false); needExactly(o, f, "GetChannelByID", gc, 1) {
+					c20ResultOf(o, f, "chanInfo", gc[0], 0)
+					if a := f.ArgCanon(gc[0]); len(a) != 1 || an.Text(callArg(gc[0], 0)) != "graphScid" {
+						o.FailAt(f.ID+"#channel-lookup", gc[0].Where(), "the channel is looked up by %v, expected the graph scid the staleness test used", a)
 					}
-					mustPass(o, f, "Graph.UpdateEdge", upd, an.OkErrNil, []an.Site{s})
+				}
+				// what is applied is the policy parsed from the message as it was
+				// validated: neither the message nor the parsed policy is modified
+				// on the way to UpdateEdge
+				if pc := f.Calls(an.CalleeNamed("ChanEdgePolicyFromWire"), false); needExactly(o, f, "ChanEdgePolicyFromWire", pc, 1) {
+					pol := c20ResultOf(o, f, "update", pc[0], 0)
+					if c19VarObj(f, callArg(upd[0], 1)) != pol {
+						o.FailAt(f.ID+"#applied-policy", upd[0].Where(), "the policy applied is %s, expected the policy parsed from the update", an.Text(callArg(upd[0], 1)))
+					}
+					var msgObj types.Object
+					if ps := f.Params(false); len(ps) > 2 {
+						msgObj = ps[2]
+					}
+					for _, obj := range []types.Object{pol, msgObj} {
+						if obj == nil {
+							continue
+						}
+						for fld, ws := range c19FieldWrites(f, obj) {
+							for _, w := range ws {
+								ws := c19SiteFor(f, w)
+								if ws.V != nil && f.Graph().Reach(ws.V, nil, nil)[upd[0].V] {
+									o.FailAt(f.ID+"#modified-before-apply-"+fld, f.Where(w.Pos()), "%s changes %s.%s between validation and UpdateEdge", an.Text(w), obj.Name(), fld)
+								}
+							}
+						}
+					}
 				}
 			}
 			if len(val) == 1 {
@@ -351,66 +513,51 @@ func runC20(r *an.Run) {
 				}
 			}
 			pz := p.Func(gs + "processZombieUpdate")
-			nz := 0
-			for _, s := range pz.Assigns(an.LocalNamed("pubKey"), false) {
-				as := s.Node.(*ast.AssignStmt)
-				c := an.Text(as.Rhs[0])
-				for _, row := range []struct {
-					isNode1 bool
-					key     string
-				}{{true, "chanInfo.NodeKey1()"}, {false, "chanInfo.NodeKey2()"}} {
-					if ok, _ := pz.Guarded(s, an.Truth(an.LocalNamed("isNode1"), row.isNode1, "")); ok {
-						nz++
-						o.Site("processZombieUpdate: isNode1=%v -> %s", row.isNode1, c)
-						if c != row.key {
-							o.FailAt(pz.ID+"#key-for-direction", s.Where(), "a zombie update with isNode1=%v is checked against %s, expected %s", row.isNode1, c, row.key)
-						}
+			notReassigned(o, pz, "chanInfo", "scid", "msg")
+			zKey := c20KeyByDirection(o, pz, "chanInfo", func(node1 bool) an.Fact {
+				return an.Truth(an.LocalNamed("isNode1"), node1, "")
+			})
+			c20SingleDef(o, pz, "isNode1", "(($p3.ChannelFlags & lnwire.ChanUpdateDirection) == 0)")
+			ml := pz.Calls(an.CalleeNamed("MarkEdgeLive"), false)
+			if needExactly(o, pz, "MarkEdgeLive", ml, 1) {
+				zv := pz.Calls(an.CalleeIs("netann.VerifyChannelUpdateSignature"), false)
+				mustPass(o, pz, "VerifyChannelUpdateSignature", zv, an.OkErrNil, ml)
+				// the signature that is verified is the update's own, under the key selected above
+				for _, v := range zv {
+					if a := pz.ArgCanon(v); a[0] != "$p3" || zKey == nil || c19VarObj(pz, callArg(v, 1)) != zKey {
+						o.FailAt(pz.ID+"#verified-under", v.Where(), "the zombie update is verified as (%s, %s), expected the update under the key selected by its direction", an.Text(callArg(v, 0)), an.Text(callArg(v, 1)))
 					}
 				}
-			}
-			if nz != 2 {
-				o.FailAt(pz.ID+"#direction-keys", pz.Where(pz.Body.Pos()), "processZombieUpdate selects the signer key at %d direction cases, expected 2", nz)
-			}
-			for _, s := range pz.Assigns(an.LocalNamed("isNode1"), false) {
-				if c := an.Text(s.Node.(*ast.AssignStmt).Rhs[0]); c != "msg.ChannelFlags & lnwire.ChanUpdateDirection == 0" {
-					o.FailAt(pz.ID+"#direction", s.Where(), "isNode1 is %s", c)
+				if a := pz.ArgCanon(ml[0]); len(a) != 2 || a[1] != "$p2" {
+					o.FailAt(pz.ID+"#revived-channel", ml[0].Where(), "MarkEdgeLive%v: expected the channel the update was looked up under", a)
 				}
-			}
-			ml := pz.Calls(an.CalleeNamed("MarkEdgeLive"), false)
-			if need(o, pz, "MarkEdgeLive", ml, 1) {
-				mustPass(o, pz, "VerifyChannelUpdateSignature", pz.Calls(an.CalleeIs("netann.VerifyChannelUpdateSignature"), false), an.OkErrNil, ml)
 			}
 			// key by direction, in every function that selects a key by the direction bit
-			for _, fn := range []string{gs + "handleChanUpdate", "graph.Builder.ApplyChannelUpdate"} {
+			for fn, ch := range map[string]string{gs + "handleChanUpdate": "chanInfo", "graph.Builder.ApplyChannelUpdate": "ch"} {
 				g := p.Func(fn)
-				n := 0
-				for _, s := range g.Assigns(an.LocalNamed("pubKey"), false) {
-					as := s.Node.(*ast.AssignStmt)
-					c := an.Text(as.Rhs[0])
-					for dir, want := range map[int64]string{0: "NodeKey1()", 1: "NodeKey2()"} {
-						if ok, _ := g.Guarded(s, an.Cmp(dirTerm, an.EQ, an.IntConst(dir), "")); ok {
-							n++
-							o.Site("%s: direction %d -> %s", fn, dir, c)
-							if !strings.HasSuffix(c, want) {
-								o.FailAt(g.ID+"#key-for-direction", s.Where(), "direction %d is checked against %s, expected %s", dir, c, want)
-							}
-						}
+				key := c20KeyByDirection(o, g, ch, func(node1 bool) an.Fact {
+					dir := int64(1)
+					if node1 {
+						dir = 0
+					}
+					return an.Cmp(dirTerm, an.EQ, an.IntConst(dir), "")
+				})
+				// the key selected is the key the update is validated under
+				for _, v := range g.Calls(an.CalleeIs("netann.ValidateChannelUpdateAnn"), false) {
+					if key == nil || c19VarObj(g, callArg(v, 0)) != key {
+						o.FailAt(g.ID+"#validated-under", v.Where(), "the update is validated under %s, expected the key selected by its direction", an.Text(callArg(v, 0)))
 					}
 				}
-				if n != 2 {
-					o.FailAt(g.ID+"#direction-keys", g.Where(g.Body.Pos()), "%s selects the signer key at %d direction cases, expected 2", fn, n)
-				}
-			}
-			for _, s := range f.Assigns(an.LocalNamed("direction"), false) {
-				if c := an.Text(s.Node.(*ast.AssignStmt).Rhs[0]); c != "upd.ChannelFlags & lnwire.ChanUpdateDirection" {
-					o.FailAt(f.ID+"#direction", s.Where(), "direction is %s", c)
+				if gc := g.Calls(an.CalleeNamed("GetChannelByID"), false); fn != gs+"handleChanUpdate" && needExactly(o, g, "GetChannelByID", gc, 1) {
+					c20ResultOf(o, g, ch, gc[0], 0)
+					notReassigned(o, g, "msg")
 				}
 			}
 			// builder: strictly newer, same direction
 			b := p.Func("graph.Builder.updateEdge")
 			wr := b.Calls(an.CalleeNamed("UpdateEdgePolicy"), false)
 			has := b.Calls(an.CalleeNamed("HasV1ChannelEdge"), false)
-			if need(o, b, "UpdateEdgePolicy", wr, 1) && need(o, b, "HasV1ChannelEdge", has, 1) {
+			if needExactly(o, b, "UpdateEdgePolicy", wr, 1) && needExactly(o, b, "HasV1ChannelEdge", has, 1) {
 				guarded(o, b, wr[0], an.Truth(an.LocalNamed("exists"), true, "exists"))
 				for dir, ts := range map[int64]string{0: "edge1Timestamp", 1: "edge2Timestamp"} {
 					// below case dir, the write needs edgeNTimestamp.Before(policy.LastUpdate)
@@ -422,15 +569,32 @@ func runC20(r *an.Run) {
 				}
 				// result order
 				for i, name := range []string{"edge1Timestamp", "edge2Timestamp", "exists", "isZombie"} {
-					for _, s := range b.Assigns(an.LocalNamed(name), false) {
-						as := s.Node.(*ast.AssignStmt)
-						if len(as.Lhs) < 4 || an.Text(as.Lhs[i]) != name {
-							o.FailAt(b.ID+"#result-order", s.Where(), "%s is not result %d of HasV1ChannelEdge", name, i)
-						}
-					}
+					c20ResultOf(o, b, name, has[0], i)
 				}
+				notReassigned(o, b, "policy")
 			}
 			st := p.Func("graph.Builder.IsStaleEdgePolicy")
+			notReassigned(o, st, "chanID", "timestamp", "flags")
+			if sh := st.Calls(an.CalleeNamed("HasV1ChannelEdge"), false); needExactly(o, st, "HasV1ChannelEdge", sh, 1) {
+				for i, name := range []string{"edge1Timestamp", "edge2Timestamp", "exists", "isZombie"} {
+					c20ResultOf(o, st, name, sh[0], i)
+				}
+				if a := st.ArgCanon(sh[0]); a[len(a)-1] != "$p0.ToUint64()" {
+					o.FailAt(st.ID+"#channel", sh[0].Where(), "the stored timestamps are read for %s, expected the channel asked about", a[len(a)-1])
+				}
+			}
+			// for a known, live channel the verdict is the direction's comparison:
+			// "not stale" without it only on a lookup error, for an unknown
+			// channel, or when no direction case applies
+			for _, s := range st.Returns() {
+				if an.Text(s.Node.(*ast.ReturnStmt).Results[0]) != "false" {
+					continue
+				}
+				guarded(o, st, s, an.AnyOf("lookup failed, channel unknown, or neither direction",
+					an.IsNil(an.LocalNamed("err"), false, ""),
+					an.Truth(an.LocalNamed("exists"), false, ""),
+					an.Cmp(dirTerm, an.NE, an.IntConst(1), "")))
+			}
 			nDir := 0
 			defer func() {
 				if nDir != 2 {
@@ -501,15 +665,137 @@ func runC20(r *an.Run) {
 			if m != 2 {
 				o.FailAt(sq.ID+"#timestamps", sq.Where(sq.Body.Pos()), "expected two direction timestamp reads in the SQL store, found %d", m)
 			}
+			// every way a direction's timestamp gets its value, cache hits
+			// included; what is cached and what is returned keep the order
+			c19DefinedAs(o, kv, "upd1Time", "zero", "= time.Unix(entry.upd1Time, 0)", "= e1.LastUpdate")
+			c19DefinedAs(o, kv, "upd2Time", "zero", "= time.Unix(entry.upd2Time, 0)", "= e2.LastUpdate")
+			c19DefinedAs(o, sq, "node1LastUpdate", "zero", "= time.Unix(entry.upd1Time, 0)", "= time.Unix(policy1.LastUpdate.Int64, 0)")
+			c19DefinedAs(o, sq, "node2LastUpdate", "zero", "= time.Unix(entry.upd2Time, 0)", "= time.Unix(policy2.LastUpdate.Int64, 0)")
+			for _, lf := range kv.Lits {
+				if fc := lf.Calls(an.CalleeNamed("fetchChanEdgePolicies"), false); len(fc) == 1 && lf.Parent == kv {
+					c20ResultOf(o, lf, "e1", fc[0], 0)
+					c20ResultOf(o, lf, "e2", fc[0], 1)
+				}
+			}
+			for _, cl := range p.CompositeLitsOf(p.LookupTypeAny("graph/db", "rejectCacheEntry")) {
+				if cl.Fn == nil {
+					continue
+				}
+				want := map[string][2]string{
+					kv.ID:                            {"upd1Time.Unix()", "upd2Time.Unix()"},
+					"graph/db.newRejectCacheEntryV1": {"upd1.Unix()", "upd2.Unix()"},
+				}[cl.Fn.Root().ID]
+				if want[0] == "" {
+					continue
+				}
+				o.Site("%s caches (%s, %s)", cl.Fn.Root().ID, kvText(cl.Node, "upd1Time"), kvText(cl.Node, "upd2Time"))
+				if kvText(cl.Node, "upd1Time") != want[0] || kvText(cl.Node, "upd2Time") != want[1] {
+					o.FailAt(cl.Fn.Root().ID+"#cached-order", cl.Where, "%s caches the direction timestamps as (%s, %s), expected (%s, %s)", cl.Fn.Root().ID, kvText(cl.Node, "upd1Time"), kvText(cl.Node, "upd2Time"), want[0], want[1])
+				}
+			}
+			if nc := p.Func("graph/db.newRejectCacheEntryV1"); nc != nil {
+				notReassigned(o, nc, "upd1", "upd2")
+			}
+			nIns := 0
+			for _, s := range sq.Calls(an.CalleeNamed("newRejectCacheEntryV1"), false) {
+				nIns++
+				c := s.Node.(*ast.CallExpr)
+				if an.Text(c.Args[0]) != "node1LastUpdate" || an.Text(c.Args[1]) != "node2LastUpdate" {
+					o.FailAt(sq.ID+"#cached-order", s.Where(), "the SQL store caches the direction timestamps as (%s, %s)", an.Text(c.Args[0]), an.Text(c.Args[1]))
+				}
+			}
+			if nIns != 1 {
+				o.FailAt(sq.ID+"#cache-insert", sq.Where(sq.Body.Pos()), "expected one reject-cache entry built in the SQL store's HasV1ChannelEdge, found %d", nIns)
+			}
+			for _, s := range sq.Returns() {
+				rs := s.Node.(*ast.ReturnStmt)
+				if len(rs.Results) == 5 && an.IsNilIdent(sq.Info(), rs.Results[4]) {
+					o.Site("SQLStore returns (%s, %s)", an.Text(rs.Results[0]), an.Text(rs.Results[1]))
+					if an.Text(rs.Results[0]) != "node1LastUpdate" || an.Text(rs.Results[1]) != "node2LastUpdate" {
+						o.FailAt(sq.ID+"#result-order", s.Where(), "HasV1ChannelEdge returns (%s, %s)", an.Text(rs.Results[0]), an.Text(rs.Results[1]))
+					}
+				}
+			}
+			// zombie index: at every call site node 1's key goes into (and comes
+			// out of) slot 1, node 2's key slot 2, and the slots reach the index
+			// in that order
+			nSites := 0
+			for _, fn := range p.Funcs(false, "graph/db") {
+				for _, s := range fn.Calls(an.CalleeIs("graph/db.makeZombiePubkeys"), false) {
+					nSites++
+					a := fn.ArgCanon(s)
+					o.Site("%s: makeZombiePubkeys(%s, %s, …)", fn.ID, a[0], a[1])
+					base := strings.TrimSuffix(a[0], ".NodeKey1Bytes")
+					if base == a[0] || a[1] != base+".NodeKey2Bytes" {
+						o.FailAt(fn.ID+"#zombie-key-args", s.Where(), "makeZombiePubkeys is given (%s, %s), expected the channel's NodeKey1Bytes and NodeKey2Bytes in that order", a[0], a[1])
+					}
+					var slots [2]types.Object
+					ast.Inspect(fn.Body, func(n ast.Node) bool {
+						if as, ok := n.(*ast.AssignStmt); ok && len(as.Rhs) == 1 && ast.Unparen(as.Rhs[0]) == s.Node && len(as.Lhs) == 2 {
+							slots[0], slots[1] = c19VarObj(fn, as.Lhs[0]), c19VarObj(fn, as.Lhs[1])
+						}
+						return true
+					})
+					if slots[0] == nil || slots[1] == nil || slots[0] == slots[1] {
+						o.FailAt(fn.ID+"#zombie-key-results", s.Where(), "the two keys returned by makeZombiePubkeys are not bound to two variables")
+						continue
+					}
+					// the variables hold that slot's key on every other path, too
+					for i, suffix := range []string{".NodeKey1Bytes", ".NodeKey2Bytes"} {
+						_, defs := c19LocalDefs(fn, slots[i].Name())
+						for _, d := range defs {
+							if d.Obj != slots[i] || d.Tok == "zero" {
+								continue
+							}
+							as, _ := d.Node.(*ast.AssignStmt)
+							switch {
+							case as != nil && len(as.Rhs) == 1 && ast.Unparen(as.Rhs[0]) == s.Node && i < len(as.Lhs) && c19VarObj(fn, as.Lhs[i]) == slots[i]:
+							case d.Rhs != nil && fn.Canon(d.Rhs) == base+suffix:
+							default:
+								o.FailAt(fn.ID+"#zombie-key-slot", fn.Where(d.Node.Pos()), "%s gives zombie key slot %d the value %s", an.Text(d.Node), i+1, slots[i].Name())
+							}
+						}
+					}
+					// the sink
+					nSink := 0
+					for _, z := range fn.Calls(an.CalleeNamed("markEdgeZombie"), false) {
+						nSink++
+						c := z.Node.(*ast.CallExpr)
+						if len(c.Args) != 4 || c19VarObj(fn, c.Args[2]) != slots[0] || c19VarObj(fn, c.Args[3]) != slots[1] {
+							o.FailAt(fn.ID+"#zombie-index-order", z.Where(), "the zombie index entry is written as %s", an.Text(c))
+						}
+					}
+					ast.Inspect(fn.Body, func(n ast.Node) bool {
+						cl, ok := n.(*ast.CompositeLit)
+						if !ok || !strings.HasSuffix(an.TypeID(fn.Info().TypeOf(cl)), "UpsertZombieChannelParams") {
+							return true
+						}
+						nSink++
+						k1, k2 := c20KvValue(cl, "NodeKey1"), c20KvValue(cl, "NodeKey2")
+						s1, _ := k1.(*ast.SliceExpr)
+						s2, _ := k2.(*ast.SliceExpr)
+						if s1 == nil || s2 == nil || c19VarObj(fn, s1.X) != slots[0] || c19VarObj(fn, s2.X) != slots[1] {
+							o.FailAt(fn.ID+"#zombie-index-order", fn.Where(cl.Pos()), "the zombie index entry is written with NodeKey1: %s, NodeKey2: %s", an.Text(k1), an.Text(k2))
+						}
+						return true
+					})
+					if nSink != 1 {
+						o.FailAt(fn.ID+"#zombie-index-write", s.Where(), "expected one zombie index write fed by makeZombiePubkeys in %s, found %d", fn.ID, nSink)
+					}
+				}
+			}
+			if nSites < 2 {
+				o.FailAt("graph/db.makeZombiePubkeys#call-sites", "", "expected the KV and the SQL store to call makeZombiePubkeys, found %d call sites", nSites)
+			}
 		})
 
 	r.Obl("node-announcement-admission", "GUARD",
-		"handleNodeAnnouncement calls addNode only below a non-zero timestamp and !IsStaleNode, and relays only after addNode succeeded and IsPublicNode is true; the gossiper's addNode stores the node only after netann.ValidateNodeAnn succeeded; Builder.addNode stores it only after assertNodeAnnFreshness succeeded, which requires the node to exist in the graph and its stored timestamp to be before the new one",
+		"handleNodeAnnouncement calls addNode (with the announcement it was handed, unmodified) only below a non-zero timestamp and !IsStaleNode(nodeID, time.Unix(nodeAnn.Timestamp, 0)), and hands on for relay nil or the announcement list, which is extended only by this announcement, only after addNode succeeded and only if IsPublicNode(nodeAnn.NodeID) answered true; the gossiper's addNode stores the node only after netann.ValidateNodeAnn of that message succeeded; Builder.addNode stores the node it was handed, unmodified, only after assertNodeAnnFreshness succeeded, which requires the node to exist in the graph and its stored timestamp (HasV1Node results in order) to be before the new one; the exported Builder.AddNode succeeds only through addNode and nothing else in graph stores a node",
 		"a node announcement accepted unsigned, for an unknown node or as a replay lets anyone rewrite a node's addresses and features", 8,
 		func(o *an.Obl) {
 			f := p.Func(gs + "handleNodeAnnouncement")
 			an1 := f.Calls(an.CalleeIs(gs+"addNode"), false)
-			if need(o, f, "addNode", an1, 1) {
+			if needExactly(o, f, "addNode", an1, 1) {
 				guarded(o, f, an1[0], an.Truth(an.CallNamed("IsStaleNode", nil), false, "!IsStaleNode(...)"))
 				guarded(o, f, an1[0], an.Cmp(an.FieldPath(an.Param(2), "Timestamp"), an.NE, an.IntConst(0), "nodeAnn.Timestamp != 0"))
 				for _, s := range f.Calls(an.CalleeNamed("IsStaleNode"), false) {
@@ -527,13 +813,41 @@ func runC20(r *an.Run) {
 					mustPass(o, f, "addNode", an1, an.OkErrNil, []an.Site{s})
 					guarded(o, f, s, an.Truth(an.LocalNamed("isPublic"), true, "isPublic"))
 				}
+				// what is handed on is that list only (nil on every other exit)
+				if relays := c20RelayReturns(o, f, "$p2"); len(relays) > 0 {
+					mustPass(o, f, "addNode", an1, an.OkErrNil, relays)
+				}
+				// the announcement that is stored is the one that was tested, the
+				// timestamp tested is the announced one, and "public" is the graph's answer
+				notReassigned(o, f, "nMsg", "nodeAnn")
+				if ps := f.Params(false); len(ps) > 2 {
+					for fld, ws := range c19FieldWrites(f, ps[2]) {
+						o.FailAt(f.ID+"#announcement-rewritten-"+fld, f.Where(ws[0].Pos()), "%s rewrites the announcement being processed", an.Text(ws[0]))
+					}
+				}
+				if a := f.ArgCanon(an1[0]); len(a) < 2 || a[1] != "$p2" {
+					o.FailAt(f.ID+"#added-node", an1[0].Where(), "addNode is given %v, expected the announcement being processed", a)
+				}
+				c20SingleDef(o, f, "timestamp", "time.Unix(int64($p2.Timestamp), 0)")
+				if ip := f.Calls(an.CalleeNamed("IsPublicNode"), false); needExactly(o, f, "IsPublicNode", ip, 1) {
+					c20ResultOf(o, f, "isPublic", ip[0], 0)
+					if a := f.ArgCanon(ip[0]); a[0] != "$p2.NodeID" {
+						o.FailAt(f.ID+"#public-node", ip[0].Where(), "IsPublicNode is asked about %s, expected the announcing node", a[0])
+					}
+				}
 			}
 			g := p.Func(gs + "addNode")
 			ga := g.Calls(an.CalleeNamed("AddNode"), false)
-			if need(o, g, "Graph.AddNode", ga, 1) {
+			if needExactly(o, g, "Graph.AddNode", ga, 1) {
 				mustPass(o, g, "netann.ValidateNodeAnn", g.Calls(an.CalleeIs("netann.ValidateNodeAnn"), false), an.OkErrNil, ga)
 				if a := g.ArgCanon(ga[0]); !strings.Contains(a[1], "NodeFromWireAnnouncement($p1)") {
 					o.FailAt(g.ID+"#stored-node", ga[0].Where(), "the node stored is %s", a[1])
+				}
+				notReassigned(o, g, "msg")
+				for _, v := range g.Calls(an.CalleeIs("netann.ValidateNodeAnn"), false) {
+					if a := g.ArgCanon(v); a[0] != "$p1" {
+						o.FailAt(g.ID+"#validated-node", v.Where(), "ValidateNodeAnn is given %s, expected the announcement that is stored", a[0])
+					}
 				}
 			}
 			// who else calls Graph.AddNode in discovery
@@ -552,7 +866,7 @@ func runC20(r *an.Run) {
 			}
 			b := p.Func("graph.Builder.addNode")
 			ba := b.Calls(an.CalleeNamed("AddNode"), false)
-			if need(o, b, "Graph.AddNode", ba, 1) {
+			if needExactly(o, b, "Graph.AddNode", ba, 1) {
 				mustPass(o, b, "assertNodeAnnFreshness", b.Calls(an.CalleeIs("graph.Builder.assertNodeAnnFreshness"), false), an.OkErrNil, ba)
 				for _, s := range b.Calls(an.CalleeIs("graph.Builder.assertNodeAnnFreshness"), false) {
 					a := b.ArgCanon(s)
@@ -562,7 +876,53 @@ func runC20(r *an.Run) {
 					}
 				}
 			}
+			// the announced timestamp is the one compared: nothing rewrites the node on the way
+			notReassigned(o, b, "node")
+			if ps := b.Params(false); len(ps) > 1 {
+				for fld, ws := range c19FieldWrites(b, ps[1]) {
+					o.FailAt(b.ID+"#node-rewritten-"+fld, b.Where(ws[0].Pos()), "%s rewrites the announced node before it is stored", an.Text(ws[0]))
+				}
+			}
+			for _, s := range ba {
+				if a := b.ArgCanon(s); len(a) < 2 || a[1] != "$p1" {
+					o.FailAt(b.ID+"#stored-node", s.Where(), "Graph.AddNode is given %v, expected the node whose freshness was asserted", a)
+				}
+			}
+			// the exported entry point goes through addNode; nothing else in the
+			// package writes a node
+			ex := p.Func("graph.Builder.AddNode")
+			via := ex.Calls(an.CalleeIs("graph.Builder.addNode"), false)
+			if needExactly(o, ex, "addNode", via, 1) {
+				if a := ex.ArgCanon(via[0]); len(a) < 2 || a[0] != "$p0" || a[1] != "$p1" {
+					o.FailAt(ex.ID+"#forwarded-node", via[0].Where(), "Builder.AddNode forwards %v to addNode", a)
+				}
+				mustPass(o, ex, "addNode", via, an.OkErrNil, ex.StrictSuccessReturns())
+			}
+			var writers []string
+			for _, h := range p.Funcs(false, "graph") {
+				for _, s := range h.Calls(an.CalleeNamed("AddNode"), true) {
+					if an.CalleeID(h.Info(), s.Node.(*ast.CallExpr)) == "graph.Builder.AddNode" {
+						continue
+					}
+					writers = append(writers, h.Root().ID)
+				}
+			}
+			sort.Strings(writers)
+			o.Site("Graph.AddNode callers in graph: %v", writers)
+			for _, c := range writers {
+				if c != "graph.Builder.addNode" {
+					o.FailAt(c+"#adds-node", "", "%s stores a node without the freshness assertion of Builder.addNode", c)
+				}
+			}
 			fr := p.Func("graph.Builder.assertNodeAnnFreshness")
+			notReassigned(o, fr, "node", "msgTimestamp")
+			if hn := fr.Calls(an.CalleeNamed("HasV1Node"), false); needExactly(o, fr, "HasV1Node", hn, 1) {
+				c20ResultOf(o, fr, "lastUpdate", hn[0], 0)
+				c20ResultOf(o, fr, "exists", hn[0], 1)
+				if a := fr.ArgCanon(hn[0]); a[len(a)-1] != "$p1" {
+					o.FailAt(fr.ID+"#node", hn[0].Where(), "the stored timestamp is read for %s, expected the announcing node", a[len(a)-1])
+				}
+			}
 			for _, s := range fr.StrictSuccessReturns() {
 				guarded(o, fr, s, an.Truth(an.LocalNamed("exists"), true, "exists"))
 				guarded(o, fr, s, an.Truth(an.CallNamed("Before", an.LocalNamed("lastUpdate"), an.Param(2)), true, "lastUpdate.Before(msgTimestamp)"))
